@@ -14,6 +14,12 @@ part `wgrid`: full product layout x length x noise x (gv configuration at constr
 The data alphabet is the full basis e_k, j*e_k (every k, every row, real and complex dtype) of every
 length, plus ramps and one VERIF_SEED-selected random field; the noise alphabet is absent / basis
 (pair-space basis (0, b)) / mixed / zero-sum.
+
+Sample-dtype axis (`DTYPES`): the objects store the samples in the dtype they were given, so "every signal
+object" includes records held in bool, (u)int8/16/32/64, float16/32, long double, complex64 and complex long
+double.  Every such dtype x every layout x every length gets its own leaves (ramp, values at both limits of
+the integer type / values that are not representable in a lower precision, last basis element, seeded random
+field; without and with same-dtype noise).  Precision demanded on them: see `_leaf_eps`.
 """
 from __future__ import annotations
 import hashlib
@@ -39,6 +45,36 @@ NMODES = ('none', 'swap', 'mix', 'zs')        # no noise | S=0,N=pattern | S=pat
 OPS = (('w', False), ('f', False), ('t', False), ('w', True), ('f', True), ('t', True))
 W_DEPTH = 2                       # w() depends on len() and gv only: checked on every state of depth <= 2
 BAD_DOMAINS = ('x', '', 'time', 'wt', 'z', None, 0, 1.5)
+
+# sample dtypes other than float64 / complex128 / the platform int (those are the 'e', 'ec', 'ramp_i', ... members)
+DTYPES = ('bool', 'int8', 'uint8', 'int16', 'uint16', 'int32', 'uint32', 'int64', 'uint64',
+          'float16', 'float32', 'longdouble', 'complex64', 'clongdouble')
+DT_KINDS = ('ramp', 'edge', 'elast', 'rnd')      # 'edge' = both limits of an integer type | thirds/sevenths (not exact in any lower precision)
+DT_NMODES = ('none', 'swap', 'mix')               # noise of the SAME dtype (the constructor keeps the common dtype)
+DT_DEPTH_QUICK = 1                                # every transform result is complex: the sample dtype only matters for the first operation
+EPS32 = float(np.finfo(np.float32).eps)
+
+
+def _leaf_eps(dtname):
+    """unit roundoff that "to rounding error" may refer to for samples stored in the given dtype.
+
+    numpy.fft (the transform the statement names) converts bool and integers of EVERY width to double and computes
+    in double, in every numpy release; samples wider than double are computed in double (numpy 1.x) or wider
+    (numpy 2.x): for all of these the statement demands double-precision rounding error.  Half/single precision
+    samples are computed in double by numpy 1.x but in single precision by numpy >= 2.0, so for float16 / float32 /
+    complex64 samples only single-precision rounding error can be demanded safely."""
+    return EPS32 if dtname in ('float16', 'float32', 'complex64') else EPS
+
+
+def _dt_class(dtname):
+    if dtname is None:
+        return ''
+    k = np.dtype(dtname).kind
+    if k in 'iu':
+        return ':dt=int'
+    if k == 'b':
+        return ':dt=bool'
+    return ':dt=single' if _leaf_eps(dtname) > EPS else ':dt=extended'
 
 # gv call histories (applied after gv.clean()); a-priori sampling rate where the last call fixes it
 GV_CFGS = (
@@ -161,9 +197,85 @@ def _pattern_array(layout, n, pat, seed):
     return a
 
 
+def _dt_pattern(layout, n, dtname, kind, seed):
+    rows = 2 if layout == 'O2' else 1
+    dt = np.dtype(dtname)
+    r0 = np.arange(1, n + 1)
+    t = np.arange(n)
+    if kind == 'elast':                                   # last basis element of the last row: every twiddle factor appears
+        a = np.zeros((rows, n), dtype=dt)
+        a[rows - 1, n - 1] = 1
+        return a
+    if dt.kind == 'b':
+        if kind == 'ramp':
+            v = [t % 3 != 1, t % 2 == 0]
+        elif kind == 'edge':
+            v = [np.ones(n, bool), t % 2 == 1]
+        else:
+            rs = np.random.RandomState((seed * 1000003 + n * 31 + LAYOUTS.index(layout) + 7919 * (1 + DTYPES.index(dtname))) % 2 ** 32)
+            v = list(rs.randint(0, 2, size=(2, n)).astype(bool))
+        return np.array(v[:rows], dtype=dt)
+    if dt.kind in 'iu':
+        info = np.iinfo(dt)
+        if kind == 'ramp':                                # small counts (|.|^2 stays inside even int8 for the short lengths, see _fixed_width_closed)
+            v = [r0, (-2 * r0[::-1] + 1) if dt.kind == 'i' else (2 * r0[::-1] + 1)]
+            return np.array(v[:rows]).astype(dt)
+        if kind == 'edge':                                # both limits of the type, and their neighbours
+            cyc = [info.min, info.max, 0, info.max - 1, info.min + 1, 1]
+            v = [[cyc[i % 6] for i in range(n)], [cyc[(i + 1) % 6] for i in range(n)]]
+            return np.array(v[:rows], dtype=dt)
+        rs = np.random.RandomState((seed * 1000003 + n * 31 + LAYOUTS.index(layout) + 7919 * (1 + DTYPES.index(dtname))) % 2 ** 32)
+        return rs.randint(info.min, info.max, size=(rows, n), dtype=dt)       # full range of the type
+    # floating / complex floating
+    cplx = dt.kind == 'c'
+    if kind == 'ramp':                                    # exactly representable in every float type
+        v = [r0 * 0.5 + 0.25, -2.0 * r0[::-1] + 0.5]
+        if cplx:
+            v = [r0 * (1 + 0.5j), (-2.0 * r0[::-1] + 0.5) * (0.5 - 1j)]
+    elif kind == 'edge':                                  # rounded differently in every precision
+        one, three, seven = dt.type(1), dt.type(3), dt.type(7)
+        v = [r0.astype(dt) / three, -(r0[::-1].astype(dt)) / seven + one / three]
+        if cplx:
+            v = [v[0] + 1j * (r0.astype(dt) / seven), v[1] - 1j * (r0.astype(dt) / three)]
+    else:
+        rs = np.random.RandomState((seed * 1000003 + n * 31 + LAYOUTS.index(layout) + 7919 * (1 + DTYPES.index(dtname))) % 2 ** 32)
+        v = rs.randn(2, n) + (1j * rs.randn(2, n) if cplx else 0.0)
+        v = list(v)
+    return np.array(v[:rows]).astype(dt)
+
+
+def _dt_leaf(layout, n, pat, nmode, seed):
+    """leaves whose samples (signal AND noise) are stored in the dtype pat[1]"""
+    _, dtname, kind = pat
+    rows = 2 if layout == 'O2' else 1
+    dt = np.dtype(dtname)
+    a = _dt_pattern(layout, n, dtname, kind, seed)
+    assert a.dtype == dt and a.shape == (rows, n), (a.dtype, a.shape)
+    if nmode == 'none':
+        return a, None
+    if nmode == 'swap':
+        return np.zeros((rows, n), dtype=dt), a
+    if nmode == 'mix':                                    # a different non-zero field of the same dtype
+        t = np.arange(n)
+        if dt.kind == 'b':
+            v = [t % 3 == 0, t % 2 == 1]
+        elif dt.kind == 'u':
+            v = [(3 * t + 1) % 5, (2 * t + 1) % 3]
+        elif dt.kind == 'i':
+            v = [(3 * t + 1) % 5 - 2, 1 - (2 * t + 1) % 3 * 2]
+        elif dt.kind == 'f':
+            v = [0.25 * (-1.0) ** t + 0.125 * (t + 1), -0.125 + 0.0625 * t]
+        else:
+            v = [0.25 * (-1.0) ** t + 0.125j * (t + 1), 0.5j * (-1.0) ** t - 0.125 + 0.0625 * t]
+        return a, np.array(v[:rows]).astype(dt)
+    raise KeyError(nmode)
+
+
 def leaf_arrays(layout, n, pat, nmode, seed):
     """(S, N) as (rows, n) arrays; N None when absent"""
     rows = 2 if layout == 'O2' else 1
+    if pat[0] == 'dt':
+        return _dt_leaf(layout, n, pat, nmode, seed)
     a = _pattern_array(layout, n, pat, seed)
     if nmode == 'none':
         return a, None
@@ -241,6 +353,29 @@ def _sumsq(a):
     return np.sum(a * a, axis=-1)
 
 
+def _num(a):
+    """bool / integer samples as numbers that mix with complex arithmetic (exact up to 53 bits)"""
+    if a is None:
+        return None
+    return a if a.dtype.kind in 'fc' else a.astype(float)
+
+
+def _state_eps(dt):
+    """unit roundoff of the arithmetic power() is carried out in (= the dtype the samples are stored in)"""
+    return max(EPS, float(np.finfo(dt).eps)) if dt.kind in 'fc' else EPS
+
+
+def _fixed_width_closed(s2, n2):
+    """bool / fixed-width integer samples: are signal+noise, |.| and |.|^2 all representable in the sample dtype?
+    (exact Python-int arithmetic).  When they are not, numpy's own `abs(s+n)**2` wraps around (bool: saturates) and the
+    statement, which names the formula but not the width it is evaluated in, is silent: power() is then not asserted."""
+    info = (0, 1) if s2.dtype.kind == 'b' else (int(np.iinfo(s2.dtype).min), int(np.iinfo(s2.dtype).max))
+    z = [int(v) for v in s2.ravel()]
+    if n2 is not None:
+        z = [a + int(b) for a, b in zip(z, n2.ravel())]
+    return all(info[0] <= v <= info[1] and abs(v) <= info[1] and v * v <= info[1] for v in z)
+
+
 def _nontrivial_state(n, s2, n2):
     if n < 2:
         return False
@@ -291,12 +426,18 @@ def check_w(x, n, layout, fs_ref, where, viol):
     return out
 
 
-def check_power(x, layout, where, viol):
+def check_power(x, layout, where, viol, sfx='', stat=None):
     s2 = _a2(np.asarray(x.signal))
     n2 = _a2(x.noise)
     n = s2.shape[1]
-    z = s2 if n2 is None else s2 + n2
-    ref = _sumsq(z) / n                                    # per row
+    if s2.dtype.kind in 'biu' and (n2 is None or n2.dtype.kind in 'biu'):
+        if not _fixed_width_closed(s2, n2):
+            if stat is not None:
+                stat['power_not_asserted_fixed_width_overflow'] = stat.get('power_not_asserted_fixed_width_overflow', 0) + 1
+            return b''
+    z = _num(s2) if n2 is None else _num(s2) + _num(n2)    # exact: float64 / wider holds every narrower sample value
+    ref = np.asarray(_sumsq(z) / n, dtype=float)           # per row
+    eps = _state_eps(s2.dtype)
     p = x.power()
     p_all = x.power('all')
     out = b''
@@ -304,23 +445,23 @@ def check_power(x, layout, where, viol):
         val = np.asarray(val)
         exp_shape = (2,) if layout == 'O2' else ()
         if val.shape != exp_shape:
-            viol.append((f'power:shape:{layout}', f'{where}: {name} has shape {val.shape}, expected {exp_shape} (one value per polarisation)'))
+            viol.append((f'power:shape:{layout}{sfx}', f'{where}: {name} has shape {val.shape}, expected {exp_shape} (one value per polarisation)'))
             continue
         out += val.astype(float).tobytes()
         v = np.atleast_1d(val).astype(float)
-        if np.any(np.abs(v - ref) > (n + 8) * EPS * np.abs(ref)):
-            kind = 'nonoise' if n2 is None else ('noise-zero-sum' if np.all(np.abs(np.sum(n2, axis=1)) == 0) else 'noise')
-            viol.append((f'power:value:{layout}:{kind}', f'{where}: {name}={v.tolist()} expected mean|signal+noise|^2 per row={ref.tolist()}'))
+        if np.any(np.abs(v - ref) > (n + 8) * eps * np.abs(ref)):
+            kind = 'nonoise' if n2 is None else ('noise-zero-sum' if np.all(np.abs(np.sum(_num(n2), axis=1)) == 0) else 'noise')
+            viol.append((f'power:value:{layout}:{kind}{sfx}', f'{where}: {name}={v.tolist()} expected mean|signal+noise|^2 per row={ref.tolist()}'))
     return out
 
 
 # ------------------------------------------------------------------ one state expansion
-def _cmp_model(y_arr, mn, me, depth, n, key, where, viol, stat):
+def _cmp_model(y_arr, mn, me, depth, n, key, where, viol, stat, eps=EPS):
     """implementation array vs both models; returns (max error in units of eps*L*||x||2, agreed?)"""
     y2 = _a2(np.asarray(y_arr))
     lg = max(1.0, math.log2(n))
     nrm = _rownorm(me)
-    tol = depth * K_FFT * EPS * lg * nrm
+    tol = depth * K_FFT * eps * lg * nrm
     err_e = np.max(np.abs(y2.astype(_CLD) - me), axis=1).astype(float)
     err_n = np.max(np.abs(y2 - mn), axis=1)
     if y2.tobytes() == mn.tobytes():
@@ -329,18 +470,26 @@ def _cmp_model(y_arr, mn, me, depth, n, key, where, viol, stat):
     if not ok:
         r = int(np.argmax(err_e - tol))
         viol.append((key, f'{where}: row {r}: |impl-exactDFT|={err_e[r]:.3e}, |impl-numpy.fft model|={err_n[r]:.3e}, '
-                          f'allowed {tol[r]:.3e} (= {depth}*{K_FFT:g}*eps*max(1,log2 N)*||x||2); impl={y2[r].tolist()[:5]} model={mn[r].tolist()[:5]}'))
+                          f'allowed {tol[r]:.3e} (= {depth}*{K_FFT:g}*eps*max(1,log2 N)*||x||2, eps={eps:.3g}); impl={y2[r].tolist()[:5]} model={mn[r].tolist()[:5]}'))
     with np.errstate(all='ignore'):
-        ratio = np.where(nrm > 0, err_e / (EPS * lg * np.where(nrm > 0, nrm, 1.0) * depth), 0.0)
+        ratio = np.where(nrm > 0, err_e / (eps * lg * np.where(nrm > 0, nrm, 1.0) * depth), 0.0)
     return float(np.max(ratio)), ok
 
 
-def _expand(st, layout, n, leafdesc, viol, stat):
-    """apply all six operations to the state; return list of (op, result object, models...)"""
+def _expand(st, layout, n, leafdesc, viol_out, stat, eps=EPS, sfx=''):
+    """apply all six operations to the state; return list of (op, result object, models...)
+    eps: unit roundoff demanded on this leaf (`_leaf_eps`); sfx: dtype-class suffix of every violation key"""
+    succ, maxratio, viol = _expand0(st, layout, n, leafdesc, stat, eps)
+    viol_out.extend((k + sfx, m) for k, m in viol)
+    return succ, maxratio
+
+
+def _expand0(st, layout, n, leafdesc, stat, eps):
+    viol = []
     xp = st.obj
     snap = freeze(xp)
     where0 = f'{leafdesc} program={st.path}'
-    ps2, pn2 = _a2(np.asarray(xp.signal)), _a2(xp.noise)
+    ps2, pn2 = _num(_a2(np.asarray(xp.signal))), _num(_a2(xp.noise))
     lg = max(1.0, math.log2(n))
     res_by_op = {}
     succ = []
@@ -375,7 +524,7 @@ def _expand(st, layout, n, leafdesc, viol, stat):
         d = st.tdepth + 1
         sh = '+shift' if shift else ''
         par = f':{_parity(n)}' if shift else ''
-        mr, agreed = _cmp_model(y.signal, mn_s, me_s, d, n, f'value:{dirn}{sh}:signal:{layout}{par}', where, viol, stat)
+        mr, agreed = _cmp_model(y.signal, mn_s, me_s, d, n, f'value:{dirn}{sh}:signal:{layout}{par}', where, viol, stat, eps)
         maxratio = max(maxratio, mr)
         noise_ok = True
         if st.me_n is not None:
@@ -386,7 +535,7 @@ def _expand(st, layout, n, leafdesc, viol, stat):
                 viol.append((f'new-object:shape:{layout}', f'{where}: noise shape {np.shape(xp.noise)} -> {np.shape(y.noise)}'))
                 noise_ok = False
             else:
-                mr, ok_n = _cmp_model(y.noise, mn_n, me_n, d, n, f'value:{dirn}{sh}:noise:{layout}{par}', where, viol, stat)
+                mr, ok_n = _cmp_model(y.noise, mn_n, me_n, d, n, f'value:{dirn}{sh}:noise:{layout}{par}', where, viol, stat, eps)
                 maxratio = max(maxratio, mr)
                 agreed = agreed and ok_n
         elif y.noise is not None and np.any(np.asarray(y.noise) != 0):
@@ -399,7 +548,7 @@ def _expand(st, layout, n, leafdesc, viol, stat):
                 continue
             lhs = np.atleast_1d(_sumsq(ya))
             rhs = np.atleast_1d(_sumsq(pa)) * scale
-            ptol = (2 * K_FFT * lg + n + 8) * EPS * rhs
+            ptol = (2 * K_FFT * lg + n + 8) * eps * rhs
             if np.any(np.abs(lhs - rhs) > ptol):
                 r = int(np.argmax(np.abs(lhs - rhs) - ptol))
                 viol.append((f'parseval:{dirn}:{nm}:{layout}', f'{where}: row {r}: sum|out|^2={lhs[r]!r} expected '
@@ -454,7 +603,7 @@ def _expand(st, layout, n, leafdesc, viol, stat):
                 viol.append((f'roundtrip:{nm2}:{nm}:{layout}', f'{where0}: {nm} lost or reshaped by the round trip'))
                 continue
             err = np.max(np.abs(_a2(np.asarray(ra)) - pa), axis=1)
-            tol = 2 * K_FFT * EPS * lg * np.sqrt(np.atleast_1d(_sumsq(pa)))
+            tol = 2 * K_FFT * eps * lg * np.sqrt(np.atleast_1d(_sumsq(pa))).astype(float)
             if np.any(err > tol):
                 r = int(np.argmax(err - tol))
                 viol.append((f'roundtrip:{nm2}:{nm}:{layout}', f"{where0}: x('{first}')('{second}').{nm} differs from x.{nm} by {err[r]:.3e} "
@@ -462,7 +611,7 @@ def _expand(st, layout, n, leafdesc, viol, stat):
             with np.errstate(all='ignore'):
                 rr = np.where(tol > 0, err / np.where(tol > 0, tol, 1.0) * 2 * K_FFT, 0.0)
             maxratio = max(maxratio, float(np.max(rr)) / 2)
-    return succ, maxratio
+    return succ, maxratio, viol
 
 
 # ------------------------------------------------------------------ case: BFS from one leaf
@@ -472,6 +621,8 @@ def explore(case):
     layout, n, pat, nmode = case['layout'], case['n'], tuple(case['pat']), case['nmode']
     depth, seed, cfg = case['depth'], case['seed'], case['cfg']
     viol, stat = [], {}
+    dtname = pat[1] if pat[0] == 'dt' else None
+    eps, sfx = _leaf_eps(dtname), _dt_class(dtname)
     leafdesc = f'leaf=({layout}, N={n}, data={pat}, noise={nmode}, gv={GV_CFGS[cfg][0]})'
     gv_reset()                                              # object is built under the default grid ...
     s, nz = leaf_arrays(layout, n, pat, nmode, seed)
@@ -484,8 +635,10 @@ def explore(case):
 
     xs2, xn2 = _a2(np.asarray(x.signal)), _a2(x.noise)
     if xs2.shape != s.shape or not np.array_equal(xs2, s) or (nz is None) != (xn2 is None) or (nz is not None and not np.array_equal(xn2, nz)):
-        viol.append((f'leaf:constructor:{layout}', f'{leafdesc}: constructor did not store the given arrays'))
+        viol.append((f'leaf:constructor:{layout}{sfx}', f'{leafdesc}: constructor did not store the given arrays'))
         return res(viol=viol, obs='ctor')
+    if dtname is not None and str(np.asarray(x.signal).dtype) != str(np.dtype(dtname)):
+        stat['leaf_dtype_changed_by_constructor'] = 1      # not part of the statement; recorded only
     root = _St(x, xs2.astype(complex), None if xn2 is None else xn2.astype(complex),
                xs2.astype(_CLD), None if xn2 is None else xn2.astype(_CLD), 0, [], 0)
     seen = {_canon(layout, x): 0}
@@ -501,15 +654,15 @@ def explore(case):
         except (ValueError, TypeError):
             stat['invalid_domain_rejected'] = stat.get('invalid_domain_rejected', 0) + 1
         else:
-            viol.append((f'invalid-domain:accepted:{layout}', f'{leafdesc}: x({bad!r}) returned {type(r).__name__} instead of raising ValueError'))
+            viol.append((f'invalid-domain:accepted:{layout}{sfx}', f'{leafdesc}: x({bad!r}) returned {type(r).__name__} instead of raising ValueError'))
     while frontier and level < depth:
         nxt = []
         for st in frontier:
             where = f'{leafdesc} program={st.path}'
             if st.depth <= W_DEPTH:
                 h.update(check_w(st.obj, n, layout, fs_now, where, viol))
-            h.update(check_power(st.obj, layout, where, viol))
-            succ, mr = _expand(st, layout, n, leafdesc, viol, stat)
+            h.update(check_power(st.obj, layout, where, viol, sfx, stat))
+            succ, mr = _expand(st, layout, n, leafdesc, viol, stat, eps, sfx)
             maxratio = max(maxratio, mr)
             for op, y, mn_s, mn_n, me_s, me_n, td in succ:
                 ck = _canon(layout, y)
@@ -525,7 +678,7 @@ def explore(case):
         where = f'{leafdesc} program={st.path}'
         if st.depth <= W_DEPTH:
             h.update(check_w(st.obj, n, layout, fs_now, where, viol))
-        h.update(check_power(st.obj, layout, where, viol))
+        h.update(check_power(st.obj, layout, where, viol, sfx, stat))
     if gv_snapshot() != gsnap:
         viol.append(('gv-modified', f'{leafdesc}: gv changed while transforming / calling w() / power()'))
     gv.clean()
@@ -596,6 +749,17 @@ def leaves(tier, seed):
                     out.append({'layout': layout, 'n': n, 'pat': pat, 'nmode': nmode, 'cfg': i % len(GV_CFGS),
                                 'depth': depth_for(tier, n), 'seed': seed})
                     i += 1
+    # sample-dtype axis: dtype x kind x layout x length x (noise of the same dtype absent | present [| alone])
+    j = 0
+    for n in sorted(lengths):
+        for layout in LAYOUTS:
+            for nmode in DT_NMODES:
+                for dtname in DTYPES:
+                    for kind in DT_KINDS:
+                        out.append({'layout': layout, 'n': n, 'pat': ('dt', dtname, kind), 'nmode': nmode, 'cfg': j % len(GV_CFGS),
+                                    'depth': DT_DEPTH_QUICK if tier == 'quick' else depth_for(tier, n), 'seed': seed})
+                        j += 1
+    out.sort(key=lambda c: c['n'])                            # stable: shortest first, float64/complex128 members before the dtype axis
     return out
 
 
@@ -603,7 +767,10 @@ def run(ctx):
     depth = 2 if ctx.quick else 4
     lengths = LENGTHS_QUICK + (() if ctx.quick else LENGTHS_EXTRA)
     ctx.rule(f'xf: for every leaf = (class/layout in {LAYOUTS}) x (length in {sorted(lengths)}) x (data = FULL BASIS e_k and j*e_k on every '
-             f'row, real and complex dtype, + real/int/complex ramps + one VERIF_SEED-selected random field) x (noise in {NMODES}) '
+             f'row, real and complex dtype, + real/int/complex ramps + one VERIF_SEED-selected random field) x (noise in {NMODES}), and '
+             f'(sample dtype in {DTYPES}) x (ramp | both limits of the integer type resp. thirds/sevenths | last basis element | seeded field) '
+             f'x (same-dtype noise in {DT_NMODES}) on every layout and length'
+             f'{f" (programs of depth <= {DT_DEPTH_QUICK} on these leaves: every result is complex whatever the sample dtype)" if ctx.quick else ""}; '
              f'a BFS over all programs of depth <= {depth}{"" if ctx.quick else f" (depth <= 3 for the extra lengths {sorted(LENGTHS_EXTRA)})"} over the 6 operations (w|f|t) x (shift False|True), de-duplicated by '
              f'canonical object state, executed on the real objects in lock-step with a numpy.fft row-wise model and an exact '
              f'80-bit DFT model of the (signal, noise) pair; every transition: new object/class/n_pol/shape/no aliasing/operand '
@@ -616,6 +783,11 @@ def run(ctx):
                'with an exact DFT computed from a long-double DFT matrix, and shifts with explicit np.roll')
     ctx.assume(f'rounding allowance of one transform: {K_FFT:g}*eps*max(1,log2 N)*||x||_2 per element (grows linearly with program depth); '
                'the largest observed error in these units is recorded in coverage.max_error_units')
+    ctx.assume(f'rounding unit eps: 2^-52 for samples stored as bool, integers of every width, float64, complex128 and wider (numpy.fft '
+               f'computes those in double in every release); 2^-23 for float16/float32/complex64 samples (numpy >= 2 transforms them in single '
+               f'precision, so double precision cannot be demanded from the statement); power() is compared at the unit roundoff of the stored '
+               f'dtype and is not asserted where signal+noise, |.| or |.|^2 leave the range of a bool/fixed-width integer sample dtype '
+               f'(the statement names the formula, not the width it is evaluated in)')
     ctx.assume('gv.fs read from the real gv object is "the sampling rate currently configured" (its consistency is property C14); '
                'after clean()+configuration it is also compared with the a-priori R*sps')
 
